@@ -407,7 +407,8 @@ def run(ctx):
     from ..report import Ctx as _Ctx
     from . import c01 as _c01
     sub = _Ctx('C01', 'quick', ctx.src, 0)
-    _c01.run(sub)
+    from ..report import run_lifted as _run_lifted
+    _run_lifted(ctx, _c01, sub)
     lifted = [f for f in sub.findings if f.rule == 'C01.R3' and 'padding' in f.key]
     for f in lifted:
         ctx.fail('C02.R8', f.key, f.site, f.message)
